@@ -76,6 +76,10 @@ type ConsFocus struct {
 	ForceRC  bool // always read_committed (C05)
 	NoFaults bool
 	MaxSteps int
+	// Interleaved narrows to the shape in which aborted-transaction bookkeeping matters most:
+	// one partition, three transactional producers whose transactions overlap and nest,
+	// small fetch sizes (responses end inside transactions) and no transport faults.
+	Interleaved bool
 }
 
 var fetchTopCodes = []int16{kerr.FetchSessionIDNotFound.Code, kerr.InvalidFetchSessionEpoch.Code, kerr.FetchSessionTopicIDError.Code}
@@ -85,9 +89,15 @@ func GenConsPlan(t *rapid.T, f ConsFocus) ConsPlan {
 	p := ConsPlan{}
 	p.Brokers = rapid.IntRange(1, 3).Draw(t, "brokers")
 	nt := rapid.IntRange(1, 2).Draw(t, "ntopics")
+	if f.Interleaved {
+		nt = 1
+	}
 	for i := 0; i < nt; i++ {
 		p.Topics = append(p.Topics, fmt.Sprintf("c%d", i))
 		np := int32(rapid.IntRange(1, 3).Draw(t, "parts"))
+		if f.Interleaved {
+			np = 1
+		}
 		p.Parts = append(p.Parts, np)
 		var pf []int
 		var st []int64
@@ -101,6 +111,9 @@ func GenConsPlan(t *rapid.T, f ConsFocus) ConsPlan {
 	}
 	if f.Txn {
 		p.NTxn = rapid.IntRange(1, 3).Draw(t, "ntxn")
+		if f.Interleaved {
+			p.NTxn = 3
+		}
 		p.TxnTO = rapid.SampledFrom([]time.Duration{10 * time.Second, 60 * time.Second}).Draw(t, "txnto")
 		p.LeaveOpen = rapid.IntRange(0, 3).Draw(t, "leaveopen") == 0
 	}
@@ -117,6 +130,10 @@ func GenConsPlan(t *rapid.T, f ConsFocus) ConsPlan {
 	c.MaxWait = rapid.SampledFrom([]time.Duration{50 * time.Millisecond, 500 * time.Millisecond, 5 * time.Second}).Draw(t, "maxwait")
 	c.MaxBytes = rapid.SampledFrom([]int32{0, 0, 300, 2000}).Draw(t, "maxbytes")
 	c.MaxPartBytes = rapid.SampledFrom([]int32{0, 0, 150, 1000}).Draw(t, "maxpartbytes")
+	if f.Interleaved {
+		c.MaxBytes = rapid.SampledFrom([]int32{0, 150, 300, 300}).Draw(t, "smallmaxbytes")
+		c.MaxPartBytes = rapid.SampledFrom([]int32{0, 1, 150}).Draw(t, "smallmaxpartbytes")
+	}
 	c.Concurrent = rapid.SampledFrom([]int{0, 0, 1}).Draw(t, "concurrent")
 	c.NoSessions = rapid.IntRange(0, 4).Draw(t, "nosessions") == 0
 	c.KeepRetryable = rapid.IntRange(0, 4).Draw(t, "keepretryable") == 0
@@ -128,6 +145,9 @@ func GenConsPlan(t *rapid.T, f ConsFocus) ConsPlan {
 	kinds := []string{"append", "append", "poll", "poll", "poll", "poll", "pause", "resume", "sleep"}
 	if f.Txn {
 		kinds = append(kinds, "txappend", "txappend", "txappend", "txend", "txend")
+	}
+	if f.Interleaved {
+		kinds = []string{"txappend", "txappend", "txappend", "txappend", "txend", "txend", "append", "poll", "poll", "sleep"}
 	}
 	if !f.NoFaults {
 		kinds = append(kinds, "netfault", "netfault", "errcode", "errcode", "move", "killall")
